@@ -327,4 +327,59 @@ Proof.
   rewrite <- filter_app, H. apply pushed_filter. assumption.
 Qed.
 
+(* ---------------------------------------------------------------- each consumer's view *)
+(* l1 is a subsequence of l2 (same relative order, possibly with gaps) *)
+Inductive subseq : list A -> list A -> Prop :=
+| subseq_nil : forall l, subseq [] l
+| subseq_take : forall x l1 l2, subseq l1 l2 -> subseq (x :: l1) (x :: l2)
+| subseq_skip : forall x l1 l2, subseq l1 l2 -> subseq l1 (x :: l2).
+
+Lemma subseq_refl l : subseq l l.
+Proof. induction l; constructor; assumption. Qed.
+
+Lemma subseq_filter (f : A -> bool) l1 l2 : subseq l1 l2 -> subseq (filter f l1) (filter f l2).
+Proof.
+  induction 1 as [l|x l1 l2 _ IH|x l1 l2 _ IH]; simpl.
+  - constructor.
+  - destruct (f x); [constructor|]; assumption.
+  - destruct (f x); [apply subseq_skip|]; assumption.
+Qed.
+
+Lemma subseq_app_r l1 l2 l3 : subseq l1 l2 -> subseq l1 (l2 ++ l3).
+Proof.
+  induction 1 as [l|x l1 l2 _ IH|x l1 l2 _ IH]; simpl; constructor; assumption.
+Qed.
+
+(* the elements goroutine c received from its own Dequeue calls, in the order it received them *)
+Fixpoint received (c : Z) (sched : list (Z * uop A)) (outs : list (uout A)) : list A :=
+  match sched, outs with
+  | (t, UPop) :: r, UOVal a :: s => if t =? c then a :: received c r s else received c r s
+  | _ :: r, _ :: s => received c r s
+  | _, _ => []
+  end.
+
+Lemma received_subseq c (sched : list (Z * uop A)) : forall outs,
+  subseq (received c sched outs) (popped (map snd sched) outs).
+Proof.
+  induction sched as [|[t o] r IH]; intros outs; simpl.
+  - constructor.
+  - destruct outs as [|y s]; [destruct o; constructor|].
+    destruct o; simpl; try apply IH.
+    destruct y; simpl; try apply IH.
+    destruct (t =? c); [apply subseq_take|apply subseq_skip]; apply IH.
+Qed.
+
+(* what one consumer received from one producer is a subsequence of that producer's Enqueue
+   calls: each consumer sees every producer's elements in the order they were enqueued *)
+Theorem concurrent_consumer_view (owner : A -> Z) (sched : list (Z * uop A)) p c :
+  no_init sched ->
+  (forall t a, In (t, UPush a) sched -> owner a = t) ->
+  let '(q, outs) := crun nilv maxFirst maxInternal uq_init sched in
+  subseq (filter (fun a => owner a =? p) (received c sched outs)) (pushed (calls_of p sched)).
+Proof.
+  intros Hni Hown. pose proof (concurrent_producer_order owner sched p Hni Hown) as H.
+  destruct (crun nilv maxFirst maxInternal uq_init sched) as [q outs].
+  rewrite <- H. apply subseq_app_r. apply subseq_filter. apply received_subseq.
+Qed.
+
 End Queue.
